@@ -119,8 +119,10 @@ class Run:
         self.traces += len(trace_paths); self.events += n
         self.mc_runs.append({"module": module, "role": "trace-validation", "lines": n, "distinct_states": r.distinct, "wall_s": round(r.wall, 1)})
         fails = {}
-        for m in re.finditer(r'<<"FAIL", (\d+), \{([^}]*)\}>>', r.out.replace("\n", " ")):
+        for m in re.finditer(r'<<\s*"FAIL",\s*(\d+),\s*\{([^}]*)\}\s*>>', r.out.replace("\n", " ")):
             fails[int(m.group(1))] = sorted(x.strip().strip('"') for x in m.group(2).split(",") if x.strip())
+        if r.out.count('"FAIL"') != len(fails):
+            raise Infra("trace validation %s: %d FAIL records printed but %d parsed" % (module, r.out.count('"FAIL"'), len(fails)))
         res = []
         if fails or True:
             with open(allp) as f:
